@@ -108,17 +108,26 @@ func vHunk(merge bool) DiffElement {
 	}
 	if isList {
 		// context: absent / boundary / value
-		switch vChoice(3) {
+		ctx2 := vParam("CTX2", 0) // also two lines: boundary + value, value + value
+		switch vChoice(3 + 2*ctx2) {
 		case 1:
 			h.Before = []JsonNode{voidNode{}}
 		case 2:
 			h.Before = []JsonNode{vPayload()}
+		case 3:
+			h.Before = []JsonNode{voidNode{}, vPayload()}
+		case 4:
+			h.Before = []JsonNode{vPayload(), vPayload()}
 		}
-		switch vChoice(3) {
+		switch vChoice(3 + 2*ctx2) {
 		case 1:
 			h.After = []JsonNode{voidNode{}}
 		case 2:
 			h.After = []JsonNode{vPayload()}
+		case 3:
+			h.After = []JsonNode{vPayload(), voidNode{}}
+		case 4:
+			h.After = []JsonNode{vPayload(), vPayload()}
 		}
 	}
 	max := 1
